@@ -24,6 +24,7 @@ type replicaSys struct {
 	r       *rng
 	reps    []*replica
 	remote  repository.TestedRepo
+	alt     repository.TestedRepo // a second remote ("alt"): another channel between the same replicas
 	authors []identity.Interface
 	bugIds  []entity.Id // every bug created anywhere
 	log     []string    // the schedule, for replays
@@ -39,9 +40,13 @@ func resolversFor(repo repository.ClockedRepo) entity.Resolvers {
 func newReplicaSys(c *runCtx, r *rng, k int) *replicaSys {
 	s := &replicaSys{c: c, r: r, gens: map[entity.Id]*opGen{}}
 	s.remote, _ = newGoGit("remote", true)
+	s.alt, _ = newGoGit("altremote", true)
 	for i := 0; i < k; i++ {
 		repo, dir := newGoGit(fmt.Sprintf("rep%c", 'A'+i), false)
 		if err := repo.AddRemote("origin", s.remote.GetLocalRemote()); err != nil {
+			panic(err)
+		}
+		if err := repo.AddRemote("alt", s.alt.GetLocalRemote()); err != nil {
 			panic(err)
 		}
 		s.reps = append(s.reps, &replica{name: string(rune('A' + i)), repo: repo, dir: dir})
@@ -64,6 +69,7 @@ func (s *replicaSys) close() {
 		rp.repo.Close()
 	}
 	s.remote.Close()
+	s.alt.Close()
 }
 
 func (s *replicaSys) logf(f string, a ...any) {
@@ -137,13 +143,19 @@ func (s *replicaSys) edit(rp *replica, n int) bool {
 	return true
 }
 
-func (s *replicaSys) push(rp *replica) {
-	_, err := bug.Push(rp.repo, "origin")
+func (s *replicaSys) push(rp *replica) { s.pushTo(rp, "origin") }
+
+func (s *replicaSys) pushTo(rp *replica, remote string) {
+	_, err := bug.Push(rp.repo, remote)
+	tag := ""
+	if remote != "origin" {
+		tag = "@" + remote
+	}
 	if err != nil {
-		s.logf("%s:push!", rp.name) // non-fast-forward: refused as a whole
+		s.logf("%s:push%s!", rp.name, tag) // non-fast-forward: refused as a whole
 		s.c.count("push=refused")
 	} else {
-		s.logf("%s:push", rp.name)
+		s.logf("%s:push%s", rp.name, tag)
 		s.c.count("push=ok")
 	}
 }
@@ -158,12 +170,18 @@ type mergeRefJ struct {
 
 // pull = Fetch + MergeAll, recorded as one `mergeAll` case for the model and judged by the
 // C02 oracle. Returns whether anything changed locally.
-func (s *replicaSys) pull(rp *replica, record bool) bool {
+func (s *replicaSys) pull(rp *replica, record bool) bool { return s.pullFrom(rp, "origin", record) }
+
+func (s *replicaSys) pullFrom(rp *replica, remote string, record bool) bool {
 	repo := rp.repo
-	if _, err := bug.Fetch(repo, "origin"); err != nil {
+	if _, err := bug.Fetch(repo, remote); err != nil {
+		if remote != "origin" && strings.Contains(err.Error(), "empty") {
+			s.logf("%s:pull@%s(empty)", rp.name, remote) // nothing was ever pushed there
+			return false
+		}
 		panic(fmt.Sprintf("fetch: %v", err))
 	}
-	remoteRefs, _ := repo.ListRefs("refs/remotes/origin/bugs/")
+	remoteRefs, _ := repo.ListRefs("refs/remotes/" + remote + "/bugs/")
 	var refs []mergeRefJ
 	var heads []repository.Hash
 	before := map[string][]string{} // local op ids before
@@ -186,7 +204,7 @@ func (s *replicaSys) pull(rp *replica, record bool) bool {
 	mergeAuthor := s.authors[0]
 	results := map[string]entity.MergeResult{}
 	var order []string
-	for res := range bug.MergeAll(repo, resolversFor(repo), "origin", mergeAuthor) {
+	for res := range bug.MergeAll(repo, resolversFor(repo), remote, mergeAuthor) {
 		results[string(res.Id)] = res
 		order = append(order, string(res.Id))
 	}
@@ -235,7 +253,11 @@ func (s *replicaSys) pull(rp *replica, record bool) bool {
 		}
 		outs = append(outs, out)
 	}
-	s.logf("%s:pull", rp.name)
+	if remote == "origin" {
+		s.logf("%s:pull", rp.name)
+	} else {
+		s.logf("%s:pull@%s", rp.name, remote)
+	}
 	caseId := -1
 	if record {
 		caseId = s.c.emit(map[string]any{"cmd": "mergeAll", "commits": commits, "refs": refs, "clockEdit": ce0, "clockCreate": cc0,
@@ -263,7 +285,7 @@ func (s *replicaSys) pull(rp *replica, record bool) bool {
 			}
 		}
 		// everything of the (valid) remote version is now local
-		if rb, err := readAtRef(repo, "refs/remotes/origin/bugs/"+m.Id); err == nil {
+		if rb, err := readAtRef(repo, "refs/remotes/"+remote+"/bugs/"+m.Id); err == nil {
 			for _, o := range rb {
 				if !has[o] {
 					s.c.violation(caseId, "C02/missing-remote-op", fmt.Sprintf("an operation of the remote version of %s is missing locally after the pull; schedule %v", m.Id[:7], s.log), nil)
@@ -283,7 +305,9 @@ func (s *replicaSys) pull(rp *replica, record bool) bool {
 				s.c.violation(caseId, "C02/status", "reported `new` for an entity that existed locally", s.log)
 			}
 		case entity.MergeStatusUpdated:
-			if m.Local == nil || !changedOps {
+			// (two merge commits over the same heads are joined by a third one: the history under the
+			// ref changed though no operation is new — `updated` says so truthfully)
+			if m.Local == nil || !changedOps && m.NewHash == *m.Local {
 				s.c.violation(caseId, "C02/status", "reported `updated` but nothing of the local entity changed", s.log)
 			}
 		}
